@@ -1,37 +1,47 @@
-"""Seeded generator of small pest grammars (the 'programs' dimension of C20's first clause).
+"""Seeded generator of small pest grammars (the 'programs' dimension) and of sentences they are likely to accept.
 
 Grammars are drawn so that pest's validator accepts most of them: a rule only refers to rules with a
-higher index unless the reference is guarded by a consumed literal, repetitions only wrap expressions
-that consume input. Whatever pest rejects is still a legitimate step: the expansion then panics, and the
-panic must be the same in every environment.
+higher index unless the reference is guarded by a consumed literal, repetition bodies and all but the
+last choice alternative start with something that consumes input. Whatever pest rejects is still a
+legitimate step for C20's first clause: the expansion then panics, and the panic must be the same in
+every environment.
+
+grammar(seed) -> text                       (used per run by vlib/c20.py)
+build(seed)   -> Grammar (rules as ASTs)    render(g) -> text, sample(g, rule, rng) -> a likely sentence
+                                            (used once by tools/make_gen_corpus.py to write corpus/gen/*)
 """
 from .common import SplitMix
 
-BUILTINS = ["ANY", "ASCII_DIGIT", "ASCII_ALPHA", "ASCII_ALPHANUMERIC", "ASCII_HEX_DIGIT", "NEWLINE", "LETTER", "NUMBER", "HAN", "EMOJI",
-            "UPPERCASE_LETTER", "XID_START", "XID_CONTINUE", "PUNCTUATION"]
+BUILTINS = {"ANY": "x", "ASCII_DIGIT": "7", "ASCII_ALPHA": "q", "ASCII_ALPHANUMERIC": "k", "ASCII_HEX_DIGIT": "f", "NEWLINE": "\n", "LETTER": "ß", "NUMBER": "5",
+            "HAN": "中", "EMOJI": "😀", "UPPERCASE_LETTER": "Q", "XID_START": "w", "XID_CONTINUE": "9", "PUNCTUATION": "!"}
+BUILTIN_NAMES = sorted(BUILTINS)
 WORDS = ["a", "b", "ab", "let", "(", ")", ",", ";", "=", "fn", "0x", "::", "<", ">", "é", "中", "+"]
+RANGES = [("a", "z", "m"), ("0", "9", "4"), ("A", "F", "C"), ("\\u{4e00}", "\\u{9fff}", "字")]
+STACK_OPS = ["PEEK", "POP", "PEEK_ALL", "POP_ALL", "PEEK[0..1]", "PEEK[-1..]", "DROP"]
 
 
-def lit(rng):
-    w = rng.pick(WORDS)
-    return '"%s"' % w
+class Grammar:
+    def __init__(self):
+        self.header = []
+        self.rules = []  # (index, modifier, doc or None, ast)
+        self.order = []
+        self.skip = False
 
 
 def consuming_atom(rng, i, n):
     """An expression that always consumes at least one character."""
     k = rng.below(9)
     if k == 0:
-        return "^" + lit(rng)
+        return ("ins", rng.pick(WORDS))
     if k == 1:
-        a = rng.pick(["'a'..'z'", "'0'..'9'", "'A'..'F'", "'\\u{4e00}'..'\\u{9fff}'"])
-        return a
+        return ("range",) + rng.pick(RANGES)
     if k == 2:
-        return rng.pick(BUILTINS)
+        return ("builtin", rng.pick(BUILTIN_NAMES))
     if k == 3 and i + 1 < n:
-        return "r%d" % (i + 1 + rng.below(n - i - 1))
+        return ("ref", i + 1 + rng.below(n - i - 1))
     if k == 4:
-        return "PUSH(%s)" % lit(rng)
-    return lit(rng)
+        return ("push", ("lit", rng.pick(WORDS)))
+    return ("lit", rng.pick(WORDS))
 
 
 def expr(rng, i, n, depth):
@@ -39,73 +49,200 @@ def expr(rng, i, n, depth):
         return consuming_atom(rng, i, n)
     k = rng.below(14)
     sub = lambda: expr(rng, i, n, depth - 1)
+    body = lambda: ("seq", [consuming_atom(rng, i, n), sub()]) if rng.chance(1, 2) else consuming_atom(rng, i, n)
     if k <= 2:
         m = 2 + rng.below(3 if depth > 1 else 14)  # occasionally long sequences (13+ members)
-        return "(" + " ~ ".join(sub() for _ in range(m)) + ")"
+        return ("seq", [sub() for _ in range(m)])
     if k <= 4:
         # every alternative but the last must be able to fail: it starts with something that consumes
         m = 2 + rng.below(3 if depth > 1 else 14)
-        alts = [consuming_atom(rng, i, n) + (" ~ " + sub() if rng.chance(1, 3) else "") for _ in range(m - 1)] + [sub()]
-        return "(" + " | ".join(alts) + ")"
+        alts = []
+        for _ in range(m - 1):
+            a = consuming_atom(rng, i, n)
+            alts.append(("seq", [a, sub()]) if rng.chance(1, 3) else a)
+        alts.append(sub())
+        return ("alt", alts)
     if k == 5:
-        return "(" + sub() + ")?"
-    # a repetition body must make progress: it starts with something that consumes
-    body = lambda: consuming_atom(rng, i, n) + (" ~ " + sub() if rng.chance(1, 2) else "")
+        return ("opt", sub())
     if k == 6:
-        return "(" + body() + ")*"
+        return ("star", body())
     if k == 7:
-        return "(" + body() + ")+"
+        return ("plus", body())
     if k == 8:
         a = 1 + rng.below(3)
-        form = rng.pick(["{%d}" % a, "{%d,}" % a, "{,%d}" % (a + 1), "{%d,%d}" % (a, a + rng.below(3))])
-        return "(" + body() + ")" + form
+        kind = rng.below(4)
+        return ("rep", body(), kind, a, a + rng.below(3) + (1 if kind == 2 else 0))
     if k == 9:
-        return "(&" + sub() + " ~ " + sub() + ")"
+        return ("seq", [("pos", sub()), sub()])
     if k == 10:
-        return "(!" + sub() + " ~ " + consuming_atom(rng, i, n) + ")"
+        return ("seq", [("neg", sub()), consuming_atom(rng, i, n)])
     if k == 11:
-        # stack use, guarded by a push so that most inputs behave
-        return "(PUSH(" + sub() + ") ~ " + rng.pick(["PEEK", "POP", "PEEK_ALL", "POP_ALL", "PEEK[0..1]", "PEEK[-1..]", "DROP"]) + ")"
+        return ("seq", [("push", sub()), ("stackop", rng.pick(STACK_OPS))])
     if k == 12 and i > 0:
         # backward (possibly recursive) reference behind a consumed literal
-        return "(" + lit(rng) + " ~ r%d?)" % rng.below(i + 1)
+        return ("seq", [("lit", rng.pick(WORDS)), ("opt", ("ref", rng.below(i + 1)))])
     return consuming_atom(rng, i, n)
 
 
-def grammar(seed):
+def build(seed):
     rng = SplitMix(seed)
+    g = Grammar()
     n = 2 + rng.below(9)
-    lines = []
     if rng.chance(1, 3):
-        lines.append("//! Grammar %d." % (seed % 1000))
+        g.header.append("//! Grammar %d." % (seed % 1000))
     if rng.chance(1, 2):
-        lines.append('WHITESPACE = %s{ " " | "\\t" }' % rng.pick(["_", ""]))
+        g.header.append('WHITESPACE = %s{ " " | "\\t" }' % rng.pick(["_", ""]))
+        g.skip = True
     if rng.chance(1, 4):
-        lines.append('COMMENT = _{ "#" ~ (!NEWLINE ~ ANY)* }')
-    order = list(range(n))
-    for i in order:
-        if rng.chance(1, 3):
-            lines.append("/// Rule number %d." % i)
+        g.header.append('COMMENT = _{ "#" ~ (!NEWLINE ~ ANY)* }')
+        g.skip = True
+    for i in range(n):
+        doc = "/// Rule number %d." % i if rng.chance(1, 3) else None
         mod = rng.pick(["", "", "", "_", "@", "$", "!"])
         body = expr(rng, i, n, 1 + rng.below(3))
         if not rng.chance(1, 6):
             # most rules can fail (a rule that cannot fail makes every choice it heads unreachable for pest's validator)
-            body = consuming_atom(rng, i, n) + " ~ " + body
-        lines.append("r%d = %s{ %s }" % (i, mod, body))
-    # rules are listed in a seeded order (definition order must not matter for determinism)
+            body = ("seq", [consuming_atom(rng, i, n), body])
+        g.rules.append((i, mod, doc, body))
+    g.order = list(range(n))
     if rng.chance(1, 2):
-        head = [l for l in lines if not l.startswith("r") and not l.startswith("///")]
-        rules = []
-        cur = []
-        for l in lines:
-            if l.startswith("///"):
-                cur.append(l)
-            elif l.startswith("r"):
-                cur.append(l)
-                rules.append(cur)
-                cur = []
-        for k in range(len(rules) - 1, 0, -1):
+        # definition order must not matter
+        for k in range(n - 1, 0, -1):
             j = rng.below(k + 1)
-            rules[k], rules[j] = rules[j], rules[k]
-        lines = head + [l for r in rules for l in r]
+            g.order[k], g.order[j] = g.order[j], g.order[k]
+    return g
+
+
+def esc(s):
+    return s.replace("\\", "\\\\").replace('"', '\\"')
+
+
+def render_expr(e):
+    t = e[0]
+    if t == "lit":
+        return '"%s"' % esc(e[1])
+    if t == "ins":
+        return '^"%s"' % esc(e[1])
+    if t == "range":
+        return "'%s'..'%s'" % (e[1], e[2])
+    if t == "builtin":
+        return e[1]
+    if t == "ref":
+        return "r%d" % e[1]
+    if t == "push":
+        return "PUSH(%s)" % render_expr(e[1])
+    if t == "stackop":
+        return e[1]
+    if t == "seq":
+        return "(" + " ~ ".join(render_expr(x) for x in e[1]) + ")"
+    if t == "alt":
+        return "(" + " | ".join(render_expr(x) for x in e[1]) + ")"
+    if t == "opt":
+        return "(" + render_expr(e[1]) + ")?"
+    if t == "star":
+        return "(" + render_expr(e[1]) + ")*"
+    if t == "plus":
+        return "(" + render_expr(e[1]) + ")+"
+    if t == "rep":
+        _, b, kind, a, c = e
+        form = ["{%d}" % a, "{%d,}" % a, "{,%d}" % c, "{%d,%d}" % (a, c)][kind]
+        return "(" + render_expr(b) + ")" + form
+    if t == "pos":
+        return "&" + render_expr(e[1])
+    if t == "neg":
+        return "!" + render_expr(e[1])
+    raise ValueError(t)
+
+
+def render(g):
+    lines = list(g.header)
+    for i in g.order:
+        _, mod, doc, body = g.rules[i]
+        if doc:
+            lines.append(doc)
+        lines.append("r%d = %s{ %s }" % (i, mod, render_expr(body)))
     return "\n".join(lines) + "\n"
+
+
+def grammar(seed):
+    return render(build(seed))
+
+
+def sample_expr(g, e, rng, depth, stack, sep):
+    """A sentence the expression is likely (not certain) to match."""
+    t = e[0]
+    if t == "lit":
+        return e[1]
+    if t == "ins":
+        return e[1].upper() if rng.chance(1, 2) else e[1]
+    if t == "range":
+        return e[3]
+    if t == "builtin":
+        return BUILTINS[e[1]]
+    if t == "ref":
+        if depth <= 0:
+            return ""
+        _, mod, _, body = g.rules[e[1]]
+        inner_sep = "" if mod in ("@", "$") else (sep if mod != "!" else (" " if g.skip else ""))
+        return sample_expr(g, body, rng, depth - 1, stack, inner_sep)
+    if t == "push":
+        s = sample_expr(g, e[1], rng, depth, stack, sep)
+        stack.append(s)
+        return s
+    if t == "stackop":
+        if not stack:
+            return ""
+        op = e[1]
+        if op in ("PEEK", "PEEK[-1..]"):
+            return stack[-1]
+        if op == "POP":
+            return stack.pop()
+        if op == "PEEK_ALL":
+            return "".join(reversed(stack))
+        if op == "POP_ALL":
+            s = "".join(reversed(stack))
+            del stack[:]
+            return s
+        if op == "PEEK[0..1]":
+            return stack[0]
+        if op == "DROP":
+            stack.pop()
+            return ""
+    if t == "seq":
+        parts = [sample_expr(g, x, rng, depth, stack, sep) for x in e[1]]
+        out = ""
+        for p, x in zip(parts, e[1]):
+            if out and p and sep and x[0] not in ("pos", "neg") and rng.chance(1, 3):
+                out += sep
+            out += p
+        return out
+    if t == "alt":
+        return sample_expr(g, rng.pick(e[1]), rng, depth, stack, sep)
+    if t == "opt":
+        return sample_expr(g, e[1], rng, depth, stack, sep) if rng.chance(1, 2) and depth > 0 else ""
+    if t in ("star", "plus", "rep"):
+        if t == "star":
+            k = rng.below(3)
+        elif t == "plus":
+            k = 1 + rng.below(2)
+        else:
+            _, b, kind, a, c = e
+            k = [a, a + rng.below(2), rng.below(c + 1), a + rng.below(c - a + 1)][kind]
+        if depth <= 0:
+            k = min(k, 1 if t != "star" else 0) if t != "rep" else k
+        out = ""
+        for j in range(k):
+            p = sample_expr(g, e[1], rng, depth - 1 if depth > 0 else 0, stack, sep)
+            if out and p and sep and rng.chance(1, 3):
+                out += sep
+            out += p
+        return out
+    if t in ("pos", "neg"):
+        return ""
+    raise ValueError(t)
+
+
+def sample(g, rule, rng):
+    _, mod, _, body = g.rules[rule]
+    sep = " " if (g.skip and mod not in ("@", "$")) else ""
+    return sample_expr(g, body, rng, 3, [], sep)
